@@ -836,6 +836,56 @@ fn byte_draws(run: &mut Run) -> u64 {
     }
     n
 }
+/// fails at its k-th application; input of a zero-sized type, output a word
+struct UnitStage(Rc<std::cell::Cell<usize>>, usize);
+impl Composable for UnitStage {}
+impl Operator<()> for UnitStage {
+    type Output = u64;
+    type Error = LeafErr;
+    fn apply<R: Rng + ?Sized>(&self, _: (), rng: &mut R) -> Result<u64, LeafErr> {
+        let k = self.0.get();
+        self.0.set(k + 1);
+        if k == self.1 {
+            Err(LeafErr(format!("element {k} failed")))
+        } else {
+            Ok(rng.next_u64())
+        }
+    }
+}
+
+/// Mapping over vectors as long as a vector can be (elements of a zero-sized type cost nothing): the map stops
+/// at the first failing element, names it, and has applied the operator to exactly the elements before it.
+fn huge_maps(run: &mut Run) -> u64 {
+    let mut n = 0u64;
+    for len in [1usize << 33, 1 << 61, usize::MAX / 3, usize::MAX] {
+        for fail in [0usize, 1, 5] {
+            n += 1;
+            let counter = Rc::new(std::cell::Cell::new(0usize));
+            let mut rng = TapeRng::default();
+            let mut v: Vec<()> = Vec::new();
+            unsafe { v.set_len(len) };
+            let op = UnitStage(counter.clone(), fail);
+            let r = mcx::guarded(|| Part("unused", false).map(op).apply(v, &mut rng).map(|out| out.len()).map_err(|e| format!("{e:?}")));
+            let what = match r {
+                Err(p) => Some(format!("panicked: {p}")),
+                Ok(Ok(l)) => Some(format!("succeeded with {l} results although element {fail} fails")),
+                Ok(Err(e)) => {
+                    let named = e.contains(&format!("element {fail} failed")) && e.trim_end_matches(')').ends_with(&format!(", {fail}"));
+                    if !named || counter.get() != fail + 1 || rng.pos != fail as u64 {
+                        Some(format!("error {e} after {} applications and {} words; element {fail} fails, so {} applications and {fail} words are due and the error names element {fail}", counter.get(), rng.pos, fail + 1))
+                    } else {
+                        None
+                    }
+                }
+            };
+            if let Some(w) = what {
+                run.violation("compose/huge-map".to_string(), format!("map over a vector of {len} zero-sized elements, element {fail} failing: {w}"), json!({"check":"C14","scenario":"huge-map"}));
+            }
+        }
+    }
+    n
+}
+
 /// For compositions whose failing part sits at nesting depth d: the chain of `source()` from the reported
 /// error has d + 1 links and ends at the failing part's own error; every link has a non-empty message; the
 /// same through `Box<dyn Error>`.
@@ -989,7 +1039,7 @@ pub fn run(run: &mut Run) {
     for (k, w, r) in viols {
         run.violation(k, w, r);
     }
-    let w = wrappers(run) + error_chains(run) + repeats(run) + byte_draws(run);
+    let w = wrappers(run) + error_chains(run) + repeats(run) + byte_draws(run) + huge_maps(run);
     run.states = ts.len() as u64;
     run.evaluations = total_plans + w;
     run.transitions = run.evaluations;
@@ -1054,8 +1104,9 @@ pub fn replay(v: &Value) -> bool {
         println!("wrapper checks: {n} violations");
         return n == 0;
     }
-    if v["scenario"] == json!("error-chain") || v["scenario"] == json!("repeat") || v["scenario"] == json!("byte-draws") {
+    if v["scenario"] == json!("error-chain") || v["scenario"] == json!("repeat") || v["scenario"] == json!("byte-draws") || v["scenario"] == json!("huge-map") {
         let mut r = Run::new("C14", "quick");
+        huge_maps(&mut r);
         error_chains(&mut r);
         repeats(&mut r);
         byte_draws(&mut r);
